@@ -1,8 +1,10 @@
 /-
   C12 — degree/size requests resolve to the smallest supported angular grid not below.
 
-  Model: `Model/Bisect.lean` (hand-written, tied by exhaustive correspondence),
+  Model: `Model/Bisect.lean` (hand-written specification-level model),
   tables: `Gen/AngularTables.lean` (regenerated from /repo on every run).
+  The same clauses for the decision logic *as translated from the source*
+  (`Gen/AngularLogic.lean`) are in `Props/C12/Logic.lean` (+ `Props/C12/Listing.lean`).
   Property theorems only; helper lemmas live in `Lemmas/Bisect.lean`.
 -/
 import GridVerif.Lemmas.Bisect
